@@ -199,6 +199,56 @@ func s12() {
 	vs.Event("close:" + errStr(in.Close()))
 }
 
+// S15: the listen options of the process-backed driver: four lines (active
+// sense, timing clock, a sysex, a note) under a given option set; exactly the
+// wanted classes are delivered, in order.
+var filterLines = []string{"1 FE\n", "2 F8\n", "3 F0010203F7\n", "4 903C40\n"}
+
+func s15(conf drivers.ListenConfig) func() {
+	return func() {
+		sc := script(filterLines, 0)
+		in := newIn()
+		vs.Event("open:" + errStr(in.Open()))
+		got := vs.NewChan[string](8)
+		stop, err := in.Listen(listener(1, got), conf)
+		vs.Event("listen1:" + errStr(err))
+		if err != nil {
+			return
+		}
+		for i := range filterLines {
+			sc.Trigger.Send(i)
+		}
+		for got.Recv() != "903C40@4" {
+		}
+		stop()
+		vs.Event("stop1-returned")
+		vs.Event("close:" + errStr(in.Close()))
+	}
+}
+
+func s15check(conf drivers.ListenConfig) func(e *vs.Exec) (string, string) {
+	return func(e *vs.Exec) (string, string) {
+		if s, w := deliveryRulesFor(e, []string{"FE@1", "F8@2", "F0010203F7@3", "903C40@4"}); s != "" {
+			return s, w
+		}
+		var want []string
+		if conf.ActiveSense {
+			want = append(want, "deliver:1:FE@1")
+		}
+		if conf.TimeCode {
+			want = append(want, "deliver:1:F8@2")
+		}
+		if conf.SysEx {
+			want = append(want, "deliver:1:F0010203F7@3")
+		}
+		want = append(want, "deliver:1:903C40@4")
+		if d := eventsOf(e, "deliver:1:"); fmt.Sprint(d) != fmt.Sprint(want) {
+			return "filter:midicatdrv", fmt.Sprintf("with options %+v the listener received %v, expected %v", conf, d, want)
+		}
+		return "", ""
+	}
+}
+
 // S3: the helper cannot be started twice, then can.
 func s3() {
 	script(lines, 2)
@@ -436,7 +486,9 @@ func indexOf(e *vs.Exec, ev string) int {
 
 // deliveryRules: per listener at most once per line, in order, and never
 // after the listener's stop returned.
-func deliveryRules(e *vs.Exec) (string, string) {
+func deliveryRules(e *vs.Exec) (string, string) { return deliveryRulesFor(e, wantLine) }
+
+func deliveryRulesFor(e *vs.Exec, wantLine []string) (string, string) {
 	for id := 1; id <= 2; id++ {
 		last := -1
 		stopAt := indexOf(e, fmt.Sprintf("stop%d-returned", id))
@@ -569,6 +621,10 @@ func scenarios() []scenario {
 			}
 			return "", ""
 		}},
+		{"S15-options-clock-only", s15(drivers.ListenConfig{TimeCode: true}), s15check(drivers.ListenConfig{TimeCode: true})},
+		{"S15-options-sense-only", s15(drivers.ListenConfig{ActiveSense: true}), s15check(drivers.ListenConfig{ActiveSense: true})},
+		{"S15-options-sysex-only", s15(drivers.ListenConfig{SysEx: true}), s15check(drivers.ListenConfig{SysEx: true})},
+		{"S15-options-all", s15(drivers.ListenConfig{SysEx: true, TimeCode: true, ActiveSense: true}), s15check(drivers.ListenConfig{SysEx: true, TimeCode: true, ActiveSense: true})},
 		{"S3-helper-cannot-start", s3, func(e *vs.Exec) (string, string) {
 			return expectSeq(e, []string{"open:", "close:", "isopen:"}, []string{"open:error", "isopen:false", "open:error", "close:nil", "open:nil", "isopen:true", "close:nil", "isopen:false"})
 		}},
